@@ -263,7 +263,9 @@ func fieldSetters(fd protoreflect.FieldDescriptor, depth int, thorough bool) []s
 		if fd.Message() == nil && BigLists {
 			// beyond every small chunk size a generator might introduce (scratch arrays, batching): 2^12 + 1 elements
 			lens = append(lens, 4097)
-			if thorough {
+			if thorough && fd.Kind() != protoreflect.StringKind && fd.Kind() != protoreflect.BytesKind {
+				// (strings / bytes stay at 4097 elements: 65537 elements that cycle through 16 KiB values are 200 MB per
+				// message, several copies of which exhaust the worker's address-space limit - a death of the harness, not a verdict)
 				lens = append(lens, 2049, 8193, 65537)
 			}
 		}
